@@ -139,7 +139,7 @@ Proof.
 Qed.
 
 (* ... and with the empty completed definitions of the missing output predicates
-   (/repo <COMMIT-F17>): they ARE completed definitions (complete_definition of an empty entry) *)
+   (/repo 70e6ace): they ARE completed definitions (complete_definition of an empty entry) *)
 Lemma empty_definition_classified q : classified (empty_definition q).
 Proof. left. unfold empty_definition. rewrite complete_definition_head. eauto. Qed.
 Lemma empty_definition_def_shape q : def_shape (psym q) (parity q) (empty_definition q).
